@@ -408,7 +408,8 @@ SPEC = PropSpec(
                  "equal and longer than what the definition consumes, with computed lengths negative / zero / beyond "
                  "the end: clean delivery iff exact consumption, otherwise warning (+withheld) or exception."
                  ' R14.fresh: consumption is counted from bit 0 of each parse (two packets built from the same raw bytes do not share a cursor).'
-                 ' R14.3 is taken for every sequence-flag value (a segment parsed on its own is a packet like any other); R14.4 includes a layout that lists one parameter twice.'),
+                 ' R14.3 is taken for every sequence-flag value (a segment parsed on its own is a packet like any other); R14.4 includes a layout that lists one parameter twice.'
+                 ' R14.3 also takes the option values 0 / 1; R14.4 a leading-size tag that points beyond its buffer.'),
     rule_doc="R14.1 per (advance site, guard kind); R14.2 per writer; R14.3 per option; R14.4 per layout over all packets",
     assumptions=["packet_generator is the only delivery path of parsed packets"],
     controls=controls,
